@@ -208,6 +208,84 @@ class Ctx:
         if extra > 0:
             log("[%s] %d further mismatches not listed" % (what, extra))
 
+
+    # ------------------------------------------------- isolated (crash-proof) replay
+    def vh_isolated(self, sub, tlc_out, *args, chunk=4000, tag="E", timeout=600, sig_prefix="crash"):
+        """Replay emitted cases in worker subprocesses so that a fatal error (stack overflow,
+        runtime throw), a hang or a kill of the real code is attributed to one concrete case:
+        a dead worker's chunk is bisected down to the single case that kills it."""
+        header, cases = [], []
+        pfx = '"%s ' % tag
+        with open(tlc_out, errors="replace") as fh:
+            for line in fh:
+                if line.startswith(pfx):
+                    cases.append(line)
+                elif line.startswith('"L '):
+                    header.append(line)
+        total = dict(cases=0, nontrivial=0, n_mismatch=0, mismatches=[], samples=[], drift=0, drift_examples=[],
+                     counters={}, extra={})
+        n_workers = [0]
+
+        def run(lines):
+            n_workers[0] += 1
+            path = os.path.join(self.scratch, "iso-%d.txt" % n_workers[0])
+            with open(path, "w") as fh:
+                fh.writelines(header)
+                fh.writelines(lines)
+            try:
+                res = self.vh_quiet(sub, path, *args, timeout=timeout)
+            except subprocess.TimeoutExpired:
+                res = dict(error="timeout", rc=-9, stderr="worker exceeded %ds" % timeout)
+            os.unlink(path)
+            return res
+
+        def merge(res):
+            for k in ("cases", "nontrivial", "n_mismatch", "drift"):
+                total[k] += res.get(k, 0) or 0
+            total["mismatches"] += res.get("mismatches") or []
+            total["samples"] += (res.get("samples") or [])[:2]
+            total["drift_examples"] += (res.get("drift_examples") or [])[:3]
+            for k, v in (res.get("counters") or {}).items():
+                total["counters"][k] = total["counters"].get(k, 0) + v
+
+        def go(lines):
+            res = run(lines)
+            if not res.get("error"):
+                merge(res)
+                return
+            if len(lines) == 1:
+                total["cases"] += 1
+                total["n_mismatch"] += 1
+                err = (res.get("stderr") or "")
+                first = next((l for l in err.splitlines() if l.startswith(("fatal error", "panic:", "runtime:", "SIGSEGV"))), err[:200])
+                total["mismatches"].append(dict(
+                    sig="%s:process-died:%s" % (sig_prefix, first[:80]),
+                    what="the process running the real code died or hung on this case (rc=%s): %s" % (res.get("rc"), first[:300]),
+                    replay=dict(kind="raw-case", sub=sub, line=lines[0].strip()[:20000])))
+                return
+            mid = len(lines) // 2
+            go(lines[:mid])
+            go(lines[mid:])
+
+        from concurrent.futures import ThreadPoolExecutor
+        chunks = [cases[i:i + chunk] for i in range(0, len(cases), chunk)]
+        with ThreadPoolExecutor(max_workers=max(1, NCPU - 2)) as ex:
+            list(ex.map(go, chunks))
+        total["samples"] = total["samples"][:5]
+        log("[vh-isolated] %s: %d cases in %d workers, %d mismatches" % (sub, total["cases"], n_workers[0], total["n_mismatch"]))
+        return total
+
+    def vh_quiet(self, sub, *args, timeout=3600):
+        cmd = [self.vh_path, sub] + [str(a) for a in args]
+        p = subprocess.run(cmd, capture_output=True, text=True, timeout=timeout, cwd=self.scratch)
+        for line in p.stdout.splitlines():
+            if line.startswith("RESULT "):
+                res = json.loads(line[7:])
+                if not res.get("error"):
+                    return res
+                return dict(error=res["error"], rc=p.returncode, stderr=p.stderr[-4000:])
+        return dict(error="no result", rc=p.returncode, stderr=p.stderr[-6000:])
+
     # ------------------------------------------------------------- violations
     def violation(self, sig, what, replay):
         for k in self.known:
